@@ -2,6 +2,6 @@
 # Runs the quick command of every claimed check against /repo and prints the summary lines.
 for p in $(python3 -c "import json;print(' '.join(c['property_id'] for c in json.load(open('/verif/MANIFEST.json'))['checks']))"); do
   start=$(date +%s)
-  out=$(timeout 1500 /verif/bin/dgv check -prop $p -tier ${1:-quick} 2>&1); rc=$?
+  out=$(timeout 3000 /verif/bin/dgv check -prop $p -tier ${1:-quick} 2>&1); rc=$?
   echo "[$p rc=$rc $(( $(date +%s) - start ))s] $(echo "$out" | grep -v '^note:' | tail -3 | tr '\n' '|' | cut -c1-400)"
 done
